@@ -339,7 +339,15 @@ def _interrupted_repack(ck, tier):
     ck.cov['interrupted_repack_points'] = total + total2
 
 
+def _large_call_crashes(ck, tier):
+    """C13 for a call far larger than any internal batching threshold, interrupted: after a kill at the boundaries around every non-write call
+    (and a sample of the writes) no index entry may designate bytes beyond its pack - a later append would overwrite referenced bytes"""
+    import sweep
+    total, _ = sweep.sweep(ck, ck.pid, ['topack_many'] + (['pack_many'] if tier != 'quick' else []), 'kill')
+    ck.cov['large_call_kill_points'] = total
+
+
 EXTRA = {'C02': _traces(None), 'C03': (lambda ck, tier: (_traces(None)(ck, tier), _interrupted_repack(ck, tier))),
          'C09': (lambda ck, tier: (_traces(['add_dup', 'topack', 'topack_nh', 'topack_nh_rt0', 'topack_multi', 'import_same'])(ck, tier), _pages(ck, tier))),
          'C10': (lambda ck, tier: (_traces(['pack_clean', 'pack_auto', 'repack', 'repack_keep'])(ck, tier), _estimate(ck, tier))), 'C11': _traces(['delete', 'repack', 'repack_keep']),
-         'C13': (lambda ck, tier: (_traces(tracecheck.NOREPACK_SCENARIOS)(ck, tier), _pick_pack(ck, tier), _layout(ck, tier))), 'C14': (lambda ck, tier: (_traces(['import_same', 'import_diff', 'import_same_stream', 'import_diff_stream'])(ck, tier), _import_plan(ck, tier)))}
+         'C13': (lambda ck, tier: (_traces(tracecheck.NOREPACK_SCENARIOS)(ck, tier), _pick_pack(ck, tier), _layout(ck, tier), _large_call_crashes(ck, tier))), 'C14': (lambda ck, tier: (_traces(['import_same', 'import_diff', 'import_same_stream', 'import_diff_stream'])(ck, tier), _import_plan(ck, tier)))}
